@@ -323,3 +323,79 @@ TZ_ENVS = ['UTC', 'America/New_York', 'Europe/London', 'Asia/Kolkata', 'Europe/B
 
 FILLER = ['Today is', 'at', 'on', 'the meeting of', 'is', 'approximately', 'foo', 'bar', 'we met', 'and then', 'exactly',
           'see you', 'by', 'around', 'sharp', 'in room', 'x', 'ok']
+
+
+# ----------------------------------------------------------------------------- process-zone switch family (C14 / C15)
+# groups of TZ settings that SHARE entries of time.tzname but differ in offset / DST rules / hemisphere / having DST at all
+ZONE_GROUPS = [
+    ['EST+5EDT,M3.2.0/2,M11.1.0/2', 'EST-10EDT,M10.1.0,M4.1.0/3', 'EST5EDT4,M4.1.0,M10.5.0', 'America/New_York', 'EST5',
+     'Australia/Sydney'],
+    ['AAA0BBB,M3.5.0/1,M10.5.0', 'AAA-3BBB,M3.5.0/1,M10.5.0', 'AAA0BBB-2,M10.1.0,M3.1.0', 'AAA5:30BBB,M3.2.0,M11.1.0', 'AAA-9'],
+    ['GMT0BST,M3.5.0/1,M10.5.0', 'Europe/London', 'GMT-6BST-7,M4.1.0,M9.5.0', 'GMT0', 'GMT-2'],
+    ['UTC', 'UTC+3', 'UTC0', 'UTC-5:45', 'UTC-1UTC-2,M3.5.0,M10.5.0'],
+    ['IST-5:30', 'IST-2IDT,M3.5.5/2,M10.5.0/2', 'Asia/Kolkata', 'IST-1'],
+    ['CET-1CEST,M3.5.0,M10.5.0/3', 'Europe/Berlin', 'CET-1', 'CET+6CEST,M10.1.0,M3.1.0'],
+]
+
+
+def zone_switch_calls(rng, grp, n):
+    """calls whose texts name the abbreviations of the zones in `grp` (and a few others), at ordinary, DST-gap and ambiguous
+    wall times of the rules involved; with and without an explicit offset"""
+    import time
+    names = []
+    for z in grp:
+        L.set_tz(z)
+        for x in time.tzname:
+            if x not in names:
+                names.append(x)
+    other = ['UTC', 'GMT', 'Z', 'XYZ', 'EST', 'BST']
+    out = []
+
+    def when():
+        y = rng.choice([2003, 2003, 1999, 2024, rng.randint(1971, 2036)])
+        if rng.random() < 0.55:
+            # a Sunday (or its neighbours) in a month where one of the rules switches, in the small hours
+            mth = rng.choice([3, 3, 4, 9, 10, 10, 11])
+            d = datetime.date(y, mth, rng.choice([1, 8, 22, calendar.monthrange(y, mth)[1] - 6]))
+            d += datetime.timedelta(days=(6 - d.weekday()) % 7)         # the Sunday on or after
+            if rng.random() < 0.2:
+                d += datetime.timedelta(days=rng.choice([-1, 1]))
+            return datetime.datetime(d.year, d.month, d.day, rng.choice([0, 1, 1, 2, 2, 3]), rng.choice([0, 29, 30, 59]))
+        return datetime.datetime(y, rng.randint(1, 12), rng.randint(1, 28), rng.randint(0, 23), rng.choice([0, 30, 59]))
+
+    fixed = [("2003-07-15 10:00 %s", None), ("2003-01-15 10:00 %s", None), ("10:00 %s", datetime.datetime(2003, 7, 15))]
+    k = 0
+    while len(out) < n:
+        nm = rng.choice(names) if rng.random() < 0.8 else rng.choice(other)
+        if k < len(fixed) * len(names):
+            pat, dflt = fixed[k % len(fixed)]
+            txt = pat % names[k // len(fixed)]
+            c = L.Call(txt, default=dflt or datetime.datetime(2003, 7, 15), tag="zone-switch-seed")
+            k += 1
+            out.append(c)
+            continue
+        t = when()
+        r = rng.random()
+        if r < 0.45:
+            txt = "%04d-%02d-%02d %02d:%02d %s" % (t.year, t.month, t.day, t.hour, t.minute, nm)
+        elif r < 0.6:
+            txt = "%s %d %04d %02d:%02d:00 %s" % (MON[t.month - 1], t.day, t.year, t.hour, t.minute, nm)
+        elif r < 0.7:
+            txt = "%02d:%02d %s" % (t.hour, t.minute, nm)
+        elif r < 0.8:
+            txt = "%04d-%02d-%02dT%02d:%02d:00 %s%s" % (t.year, t.month, t.day, t.hour, t.minute, nm, rng.choice(["+3", "-5", "+10:00", "-0500"]))
+        elif r < 0.88:
+            txt = "%04d-%02d-%02d %02d:%02d %s (%s)" % (t.year, t.month, t.day, t.hour, t.minute, rng.choice(["-0500", "+1000", "+0000"]), nm)
+        elif r < 0.94:
+            txt = "%04d-%02d-%02d %02d:%02d%s" % (t.year, t.month, t.day, t.hour, t.minute, rng.choice(["Z", " +00:00", "+00:00", " -0000"]))
+        else:
+            txt = "%s %04d-%02d-%02d %02d:%02d %s %s" % (rng.choice(FILLER), t.year, t.month, t.day, t.hour, t.minute, nm, rng.choice(FILLER))
+        if rng.random() < 0.3:
+            c = options(rng, txt, allow_custom=False)
+            c.via = "str"
+        else:
+            c = L.Call(txt, default=rng.choice([datetime.datetime(t.year, t.month, t.day), datetime.datetime(2003, 7, 15),
+                                                datetime.datetime(2003, 1, 15)]), fuzzy=(r >= 0.94))
+        c.tag = "zone-switch"
+        out.append(c)
+    return out
